@@ -249,3 +249,46 @@ def slice_idents(frames: list[tuple[str, int]]) -> set[str] | None:
         for sv in strs:
             out |= set(IDENT.findall(sv))
     return out
+
+
+_CODEISH = re.compile(r"[()\[\]]|\s[-+*/@%]=?\s|\s=\s|\*\*")  # call / index / operator / assignment syntax (a dotted name alone is a role, not a text)
+
+
+def textual_matches(frames: list[tuple[str, int]]) -> list[str]:
+    """Expression/statement TEXTS of repository code that the rule code deciding an obligation compares against (`unparse(x) == "a - b"`,
+    `"x = f(y)" in text`, expected-sequence tables).  A verdict that hinges on such a comparison is *textual*: a mismatch shows that the
+    code is written differently, not that it behaves differently."""
+    out: list[str] = []
+    for fname, line in frames:
+        try:
+            tree = _parsed(fname)
+        except Exception:
+            continue
+        fn = None
+        for n in ast.walk(tree):
+            if isinstance(n, (ast.FunctionDef, ast.AsyncFunctionDef)) and n.lineno <= line <= (n.end_lineno or n.lineno):
+                if fn is None or n.lineno >= fn.lineno:
+                    fn = n
+        if fn is None:
+            continue
+        ranges, _helpers = _slice(fn, line)
+        for n in ast.walk(fn):
+            ln = getattr(n, "lineno", None)
+            if ln is None or not any(a <= ln <= b for a, b in ranges):
+                continue
+            consts = []
+            if isinstance(n, ast.Compare):
+                consts = [x for x in ast.walk(n) if isinstance(x, (ast.Constant, ast.JoinedStr))]
+            elif isinstance(n, ast.Assign) and isinstance(n.targets[0], ast.Name) and n.targets[0].id in ("want", "chain", "expected", "want_sig"):
+                consts = [x for x in ast.walk(n.value) if isinstance(x, (ast.Constant, ast.JoinedStr))]
+            for c in consts:
+                if isinstance(c, ast.Constant) and isinstance(c.value, str):
+                    txt = c.value
+                elif isinstance(c, ast.JoinedStr):
+                    txt = "".join(v.value if isinstance(v, ast.Constant) and isinstance(v.value, str) else "§" for v in c.values)
+                else:
+                    continue
+                if len(txt) >= 6 and _CODEISH.search(txt) and not txt.startswith(("quantem.", "C0", "C1", "C2")) and " " not in txt.strip()[:0]:
+                    # prose (messages) lives in check.* call arguments, which are not Compare nodes; keys like '_autoserialize' have no code syntax
+                    out.append(txt)
+    return out
